@@ -11,7 +11,10 @@
 // replaced by a bound variable and every variable by its value; every token
 // string up to a length for accept/reject; numeric literals at lexical
 // boundaries next to every binary operator (lexical.go); the TEXT a variable
-// is bound to in a `{! ...}` template (bindtext.go).
+// is bound to in a `{! ...}` template (bindtext.go); every parenthesis level
+// with implied multiplications next to every operator, after function calls
+// and prefixed operands, against the same formula with an explicit `*`
+// (implied.go).
 package main
 
 import (
@@ -229,7 +232,7 @@ func danglingPrefix(formula string) bool {
 
 // Case is the replayable description of one check.
 type Case struct {
-	Kind     string             `json:"kind"` // formula | subst | template
+	Kind     string             `json:"kind"` // formula | subst | template | bind | implied (Formula: template with @ at each implied position, Dir: style)
 	Formula  string             `json:"formula"`
 	Deco     string             `json:"deco,omitempty"`
 	Root     string             `json:"root,omitempty"`
@@ -254,10 +257,18 @@ func (c *checker) violation(sig, detail string, cs Case) {
 
 func fmtVals(vs []float64) string {
 	var sb strings.Builder
-	for i, v := range vs {
-		if i > 0 {
+	var seen []float64
+next:
+	for _, v := range vs {
+		for _, s := range seen {
+			if sameNumber(s, v) {
+				continue next
+			}
+		}
+		if len(seen) > 0 {
 			sb.WriteString(" or ")
 		}
+		seen = append(seen, v)
 		sb.WriteString(strconv.FormatFloat(v, 'g', -1, 64))
 	}
 	return sb.String()
@@ -651,6 +662,10 @@ func worker(w *runner.W) {
 	if part == "all" || part == "bind" {
 		c.bindFamily(&caseNo, w.Quick())
 	}
+	// part 5: implied multiplication against the explicit form
+	if part == "all" || part == "implied" {
+		c.implied(&caseNo, w.Quick())
+	}
 }
 
 func inc(idx []int, base int) bool {
@@ -923,6 +938,8 @@ func replay(w *runner.W, raw json.RawMessage) {
 		c.checkTemplate(cs.Formula, &res, cs.Quoted, cs.Optimize)
 	case "bind":
 		c.checkBind(cs.Formula, cs.Bind, cs.Texts)
+	case "implied":
+		c.checkImplied(cs.Formula, cs.Dir, cs.Bind, true)
 	default:
 		panic("unknown case kind " + cs.Kind)
 	}
@@ -935,18 +952,19 @@ func main() {
 		Level:      "exploration",
 		Rule: func(prop, tier string) string {
 			tp := params(tier != "thorough")
-			return fmt.Sprintf("every binary-operator tree (all shapes) with 0..%d operators over the 17 binary operators {%s}; leaves: all assignments over {%s} for trees with <=%d operators, over {%s} for bigger trees; printed with minimal parentheses (shift/bit operators, whose level the statement does not give, always parenthesised against other groups) with single spaces, and without spaces for undecorated trees with <=%d and decorated trees with <=%d operators; at most one decoration (prefix -, prefix !, function in {%s} (bigger trees than %d operators: the first only), redundant parentheses at every node; implied multiplication at every * node) on all trees with <=%d operators, on trees with <=%d operators whose leaves are in {%s} and on trees with <=%d operators whose leaves are in {%s}; each formula compiled by stdmath.Compile and evaluated under 6 binding vectors (x,[0],y rotate through 0,1,-1,2.5,-3,1e18) against the value of an independent parse; undecorated trees with <=%d operators (decorated: one less) also through `{! f}` and `{! \"f\"}` templates with and without key-builder optimisation; substitution on undecorated trees with <=%d operators, on undecorated trees with <=%d operators over {%s} and <=%d operators over {%s}, on decorated trees with <=%d operators: every constant alone and all together replaced by bound variables, every variable alone and all together replaced by its value per binding vector; every token string with 0..%d tokens over {%s} and %d..%d tokens over {%s} joined by spaces for accept/reject (up to %d tokens also through templates). %s. %s. non-trivial = the formula compiled and a value determined by the statement was compared on at least one binding, or (token strings) a malformed string was rejected, or (binding texts) the template output was compared with the error marker or a value",
+			return fmt.Sprintf("every binary-operator tree (all shapes) with 0..%d operators over the 17 binary operators {%s}; leaves: all assignments over {%s} for trees with <=%d operators, over {%s} for bigger trees; printed with minimal parentheses (shift/bit operators, whose level the statement does not give, always parenthesised against other groups) with single spaces, and without spaces for undecorated trees with <=%d and decorated trees with <=%d operators; at most one decoration (prefix -, prefix !, function in {%s} (bigger trees than %d operators: the first only), redundant parentheses at every node; implied multiplication at every * node) on all trees with <=%d operators, on trees with <=%d operators whose leaves are in {%s} and on trees with <=%d operators whose leaves are in {%s}; each formula compiled by stdmath.Compile and evaluated under 6 binding vectors (x,[0],y rotate through 0,1,-1,2.5,-3,1e18) against the value of an independent parse; undecorated trees with <=%d operators (decorated: one less) also through `{! f}` and `{! \"f\"}` templates with and without key-builder optimisation; substitution on undecorated trees with <=%d operators, on undecorated trees with <=%d operators over {%s} and <=%d operators over {%s}, on decorated trees with <=%d operators: every constant alone and all together replaced by bound variables, every variable alone and all together replaced by its value per binding vector; every token string with 0..%d tokens over {%s} and %d..%d tokens over {%s} joined by spaces for accept/reject (up to %d tokens also through templates). %s. %s. %s. non-trivial = the formula compiled and a value determined by the statement was compared on at least one binding, or (token strings) a malformed string was rejected, or (binding texts) the template output was compared with the error marker or a value, or (implied-multiplication family) the implied and the explicit form compiled and were compared on at least one binding",
 				tp.maxOps, strings.Join(binOps, " "), poolNames([]int{0, 1, 2, 3, 4, 5, 6, 7}), tp.fullLeavesUpTo, poolNames(tp.reducedLeaves), tp.compactUpTo, tp.compactDecoUpTo, strings.Join(tp.funcs, ","), tp.decoSmallUpTo,
 				tp.decoFullUpTo, tp.decoSmallUpTo, poolNames(tp.smallPool), tp.decoTinyUpTo, poolNames(tp.tinyPool), tp.templateUpTo,
 				tp.substFullUpTo, tp.substSmallUpTo, poolNames(tp.smallPool), tp.substTinyUpTo, poolNames(tp.tinyPool), tp.substFullUpTo-1,
 				tp.tokenLen, strings.Join(tp.tokenAlphabet, " "), tp.tokenLen+1, tp.tokenLenSmall, strings.Join(tp.tokenSmall, " "), tp.tokenTemplate,
-				lexRule(tier != "thorough"), bindRule(tier != "thorough"))
+				lexRule(tier != "thorough"), bindRule(tier != "thorough"), impRule(tier != "thorough"))
 		},
 		Assumptions: func(string) []string {
 			return []string{
 				"operator meanings: + - * / IEEE-754 double, ^ = pow, comparisons and && || ! give 1/0 with non-zero = true; % << >> & | act on integers",
 				"the statement gives no level for << >> & |: such operators are compared only fully parenthesised against other groups, and left to right inside {<<,>>}, {&}, {|}",
-				"the statement does not say whether a prefix - or ! binds tighter than ^, nor whether implied multiplication binds tighter than * / %: both readings are accepted",
+				"the statement does not say whether a prefix - or ! binds tighter than ^: both readings are accepted",
+				"implied multiplication a(b) is the multiplication a*(b): the statement lists it among the formula features and gives one level for multiplication (* / %, equal levels left to right), docs/usage/math.md gives `2(1+1) => 4`; the formula with the juxtaposition must therefore equal the formula with an explicit * at that place (differential oracle, also next to << >> & | whose level is not given), and the independent parse reads a/b(c) as a/b*(c)",
 				"integer operators on non-integers, values outside int64, a modulus <= 0, a negative dividend, shift counts outside 0..62, overflowing shifts, and NaN as a truth value have no value fixed by the statement: only 'no crash' is demanded there",
 				"stacked prefix operators, unary plus, adjacent operands without operator, a function name without a group are neither demanded to compile nor to be rejected",
 				"numeric comparison is NaN-aware (NaN equals NaN) and treats -0 and 0 as equal",
